@@ -16,3 +16,58 @@ Proof. vm_compute. reflexivity. Qed.
 (* filepath.Join really would escape for an unchecked name *)
 Example ex_join_escapes : join_path [lit "P"; lit "t"] (lit "../sentinel") = [lit "P"; lit "sentinel"].
 Proof. vm_compute. reflexivity. Qed.
+
+(* a small module: Create keeps the regular files (sorted by path), drops the symlink and
+   the local-module file; the archive passes CheckZip and extracts to exactly those files *)
+Definition ex_files : list file :=
+  [ mkFile (lit "x.cue") KRegular 3 [1; 2; 3]%N;
+    mkFile (lit "cue.mod/module.cue") KRegular 2 [7; 8]%N;
+    mkFile (lit "link") KSymlink 0 [];
+    mkFile (lit "cue.mod/local-module.cue") KRegular 1 [9]%N ].
+
+Definition ex_archive : list entry :=
+  [ mkEntry (lit "cue.mod/module.cue") 2 KRegular [7; 8]%N true true true;
+    mkEntry (lit "x.cue") 3 KRegular [1; 2; 3]%N true true true ].
+
+Example ex_create : create no_letter id_fold ex_files = Some ex_archive.
+Proof. vm_compute. reflexivity. Qed.
+
+Example ex_roundtrip :
+  unzip no_letter id_fold [lit "P"; lit "t"] [([lit "P"], NDir)] 100 ex_archive =
+  ([ ([lit "P"; lit "t"; lit "x.cue"], NFile [1; 2; 3]%N);
+     ([lit "P"; lit "t"; lit "cue.mod"; lit "module.cue"], NFile [7; 8]%N);
+     ([lit "P"; lit "t"; lit "cue.mod"], NDir);
+     ([lit "P"; lit "t"], NDir);
+     ([lit "P"], NDir) ], UOk).
+Proof. vm_compute. reflexivity. Qed.
+
+(* hostile archives: rejected, nothing written *)
+Definition hostile (name : string) : list entry :=
+  [ mkEntry (lit "cue.mod/module.cue") 0 KRegular [] true true false;
+    mkEntry (lit name) 1 KSymlink [120]%N true true false ].
+
+Example ex_hostile_rejected :
+  forallb (fun n => checked_err (check_zip no_letter id_fold 100 (hostile n)))
+    ["../sentinel"; "/etc/passwd"; "a\b"; "C:x"; "sub/../../x"; "CUE.MOD/module.cue"; "sub/cue.mod/module.cue";
+     "cue.mod/local-module.cue"; "Cue.Mod/Module.cue"; "cue.mod/module.cue"; "nul.txt"; "a."; "a//b"; "./a"]%string = true.
+Proof. vm_compute. reflexivity. Qed.
+
+Example ex_hostile_untouched :
+  unzip no_letter id_fold [lit "P"; lit "t"] [([lit "P"], NDir)] 100 (hostile "../sentinel") = ([([lit "P"], NDir)], UErr).
+Proof. vm_compute. reflexivity. Qed.
+
+(* a symlink entry with an acceptable name is written as a regular file holding the link text *)
+Example ex_symlink_written_regular :
+  unzip no_letter id_fold [lit "P"; lit "t"] [([lit "P"], NDir)] 100 (hostile "lnk") =
+  ([ ([lit "P"; lit "t"; lit "lnk"], NFile [120]%N);
+     ([lit "P"; lit "t"; lit "cue.mod"; lit "module.cue"], NFile []);
+     ([lit "P"; lit "t"; lit "cue.mod"], NDir);
+     ([lit "P"; lit "t"], NDir);
+     ([lit "P"], NDir) ], UOk).
+Proof. vm_compute. reflexivity. Qed.
+
+(* declared size smaller than the data: the reader model drops the chunk, Unzip fails, file empty *)
+Example ex_wrong_size :
+  snd (unzip no_letter id_fold [lit "P"; lit "t"] [([lit "P"], NDir)] 100
+         [ mkEntry (lit "cue.mod/module.cue") 1 KRegular [7; 8]%N true true false ]) = UErr.
+Proof. vm_compute. reflexivity. Qed.
